@@ -1,6 +1,8 @@
 //! vmon: runtime monitors for dropshot's semantic properties (see /verif/DESIGN.md).
 pub mod api;
+pub mod c02;
 pub mod c05;
+pub mod c06;
 pub mod client;
 pub mod evlog;
 pub mod gen;
